@@ -332,7 +332,45 @@ type holder struct{ roots []*bmreqs.ReqRoot }
 
 var held holder
 
+// delayKind builds the *simbox.SimDelays of the seqdly / pardly batches: tables a caller may hand to
+// SinglePipelineSimulate (cmd/simfinetune mutates them freely); the simulator accepts all of them.
+//
+//	normal:  inc {2:1}, r2owa {1:1}           empty:   inc {} (a distribution without entries)
+//	zero:    inc {3:0, 5:0} (no weight)        unknown: an opcode the machine does not have
+//	mixed:   all of the above in one table
+func delayKind(kind string) *simbox.SimDelays {
+	sd := simbox.NewSimDelays()
+	add := func(k string) {
+		switch k {
+		case "normal":
+			sd.OpcodeDelays["inc"] = simbox.DelayDistribution{2: 1.0}
+			sd.OpcodeDelays["r2owa"] = simbox.DelayDistribution{1: 1.0}
+		case "empty":
+			sd.OpcodeDelays["inc"] = simbox.DelayDistribution{}
+		case "zero":
+			sd.OpcodeDelays["i2rw"] = simbox.DelayDistribution{3: 0.0, 5: 0.0}
+		case "unknown":
+			sd.OpcodeDelays["nosuchop"] = simbox.DelayDistribution{4: 1.0}
+		}
+	}
+	if kind == "mixed" {
+		for _, k := range []string{"normal", "unknown", "zero"} {
+			add(k)
+		}
+		sd.OpcodeDelays["r2owa"] = simbox.DelayDistribution{}
+	} else {
+		add(kind)
+	}
+	return sd
+}
+
+var simDelaysOf = map[string]*simbox.SimDelays{} // one shared object per kind, as a tuner shares its table
+
 func simOnce(bm *bondmachine.Bondmachine, m machSpec, in int, dataType string) bool {
+	if strings.HasPrefix(dataType, "delays:") {
+		res, err := bm.SinglePipelineSimulate("unsigned", []string{fmt.Sprintf("%d", in)}, simDelaysOf[dataType[7:]])
+		return err == nil && len(res) == 1 && res[0] == fmt.Sprintf("%d", m.expect(in))
+	}
 	res, err := bm.SinglePipelineSimulate(dataType, []string{fmt.Sprintf("%d", in)}, nil)
 	if dataType != "unsigned" && dataType != "nosuchtype" {
 		// two outputs: o0 (unconnected) shown in the dynamic type, o1 = the chain's result, unsigned
@@ -353,13 +391,17 @@ func runBatch(id int, b batch, rng *common.Rng) (string, bool) {
 		ticks += i + 3
 	}
 	switch b.Mode {
-	case "seq", "seqerr", "seqdyn":
+	case "seq", "seqerr", "seqdyn", "seqdly":
 		fn = "SinglePipelineSimulate"
 		bm, err := b.M.build()
 		if err != nil {
 			return "", false
 		}
 		dt := "unsigned"
+		if b.Mode == "seqdly" {
+			simDelaysOf[b.DT] = delayKind(b.DT)
+			dt = "delays:" + b.DT
+		}
 		if b.Mode == "seqdyn" {
 			dt = b.DT
 			b.M.Two = true
@@ -379,13 +421,17 @@ func runBatch(id int, b batch, rng *common.Rng) (string, bool) {
 		for i := 0; i < b.N; i++ {
 			ok = simOnce(bm, b.M, rng.Intn(200), dt) && ok
 		}
-	case "par", "pardyn":
+	case "par", "pardyn", "pardly":
 		fn = "SinglePipelineSimulate"
 		bm, err := b.M.build()
 		if err != nil {
 			return "", false
 		}
 		pdt := "unsigned"
+		if b.Mode == "pardly" {
+			simDelaysOf[b.DT] = delayKind(b.DT)
+			pdt = "delays:" + b.DT
+		}
 		if b.Mode == "pardyn" {
 			pdt = b.DT
 			b.M.Two = true
@@ -568,7 +614,7 @@ func liveHeap() uint64 {
 }
 
 func measure(id int, b batch, rng *common.Rng) {
-	if b.DT != "" {
+	if b.DT != "" && !strings.HasSuffix(b.Mode, "dly") {
 		// the number type is registered before the batch (as a tool does before it starts simulating):
 		// the simulations only look it up
 		bmnumbers.EventuallyCreateType(b.DT, nil)
@@ -681,6 +727,12 @@ func runAll(tier string) {
 		next(batch{Mode: "seqdyn", N: 10, M: genMach(rng, 3), DT: dts[rng.Intn(len(dts))]})
 		next(batch{Mode: "seqdyn", N: 100, M: genMach(rng, 2), DT: dts[rng.Intn(len(dts))]})
 		next(batch{Mode: "pardyn", N: 20, K: 2 + rng.Intn(4), M: genMach(rng, 3), DT: dts[rng.Intn(2)]})
+		// delay tables: normal, without entries, without weight, for an opcode the machine does not have
+		dks := []string{"normal", "empty", "zero", "unknown", "mixed"}
+		for _, dk := range dks {
+			next(batch{Mode: "seqdly", N: 4, M: genMach(rng, 3), DT: dk})
+		}
+		next(batch{Mode: "pardly", N: 12, K: 2 + rng.Intn(3), M: genMach(rng, 3), DT: dks[rng.Intn(len(dks))]})
 		// machines with a spare processor that cannot be initialised (a call may fail, never leak)
 		next(batch{Mode: "seq", N: 10, M: genDeadMach(rng, 3)})
 		next(batch{Mode: "par", N: 10, K: 2 + rng.Intn(4), M: genDeadMach(rng, 3)})
